@@ -9,6 +9,9 @@ HARNESSES = [
                                                       "-DTETL_ENABLE_CONTRACT_CHECKS=1"], "thorough_only": True},
     # another build mode: full optimisation, contract checks compiled out (undefined behaviour that only -O2 exploits would show here)
     {"name": "o2", "src": "harness.cpp", "flags": ["-O2"], "thorough_only": True},
+    # the class-type predicate result (_t4) has ONLY an explicit operator bool: a use of a predicate result that is not a
+    # contextual conversion to bool (arithmetic, copy-initialisation of a bool, comparison with true) does not compile
+    {"name": "xbool", "src": "harness.cpp", "flags": ["-O1", "-DTETL_ENABLE_CONTRACT_CHECKS=1", "-DTRUTH_EXPLICIT"], "thorough_only": True},
 ]
 SORTS = ("sort", "stable_sort", "insertion_sort", "gnome_sort", "bubble_sort", "exchange_sort", "merge_sort")
 
@@ -244,6 +247,116 @@ def gen(tier, rng):
         out.append(f"inplace_merge {cid} {mid} {L(a + b)}")
         out.append(f"shift_right_full {rng.randint(0, n)} {ls}")
         out.append(f"shift_left_full {rng.randint(0, n)} {ls}")
+    # ---- fix-miss round 4 -------------------------------------------------------------------------------------------
+    # (a) predicates / comparators whose result is NOT bool (suffix _t1 int 2, _t2 int -1, _t3 int 4096, _t4 class type
+    #     contextually convertible to bool): every predicate-taking algorithm, kinds cycling per operation
+    # (b) move-tracking element type (suffix _mv / _mv_full): every algorithm that moves elements inside the range
+    small = [l for l in allseqs if len(l) <= 4]
+    tk = {}
+
+    def tcyc(name):
+        tk[name] = tk.get(name, 0) + 1
+        return 1 + tk[name] % 4
+    for l in small:
+        ls = L(l)
+        for pid in range(0, 5):
+            for op in ("remove_if", "partition", "stable_partition", "copy_if", "remove_copy_if", "partition_copy"):
+                out.append(f"{op}_t{tcyc(op)} {pid} {ls}")
+            out.append(f"replace_if_t{tcyc('replace_if')} {pid} 99 {ls}")
+            out.append(f"remove_if_full_t{tcyc('rf')} {pid} {ls}")
+            out.append(f"partition_full_t{tcyc('pf')} {pid} {ls}")
+            s_, d_ = cyc("pt", FL9)
+            out.append(f"copy_if{fl(s_, d_)}_t{tcyc('cif')} {pid} {ls}")
+            out.append(f"remove_fwd_t{tcyc('rfw')} {pid} {ls}")
+            out.append(f"partition_fwd_t{tcyc('pfw')} {pid} {ls}")
+            for op in ("remove_if", "partition", "stable_partition"):
+                out.append(f"{op}_mv {pid} {ls}")
+            out.append(f"remove_if_mv_full {pid} {ls}")
+            out.append(f"partition_mv_full {pid} {ls}")
+        for v in sorted(set(l))[:2] + [999]:
+            out.append(f"remove_mv {v} {ls}")
+        for eid in (0, 2):                       # eid 1 calls the overload without a predicate
+            for op in ("unique", "unique_full", "unique_fwd", "unique_copy"):
+                out.append(f"{op}_t{tcyc(op)} {eid} {ls}")
+        for eid in range(0, 3):
+            out.append(f"unique_mv {eid} {ls}")
+            out.append(f"unique_mv_full {eid} {ls}")
+        for cid in range(0, 3):
+            for s in SORTS:
+                out.append(f"{s}_t{tcyc(s)} {cid} {ls}")
+                out.append(f"{s}_full_t{tcyc(s + 'f')} {cid} {ls}")
+            for k in range(0, len(l) + 1):
+                out.append(f"partial_sort_t{tcyc('ps')} {cid} {k} {ls}")
+                if k < len(l) or len(l) == 0:
+                    out.append(f"nth_element_t{tcyc('ne')} {cid} {k} {ls}")
+            for mid in range(0, len(l) + 1):
+                a = sorted(l[:mid], key=cmpkey(cid))
+                b = sorted(l[mid:], key=cmpkey(cid))
+                out.append(f"inplace_merge_t{tcyc('im')} {cid} {mid} {L(a + b)}")
+        for cid in (0, 2, 3):
+            for s in SORTS:
+                out.append(f"{s}_mv {cid} {ls}")
+                out.append(f"{s}_mv_full {cid} {ls}")
+            out.append(f"partial_sort_mv {cid} {len(l) // 2} {ls}")
+            if l:
+                out.append(f"nth_element_mv {cid} {len(l) // 2} {ls}")
+            for mid in range(0, len(l) + 1):
+                a = sorted(l[:mid], key=cmpkey(cid))
+                b = sorted(l[mid:], key=cmpkey(cid))
+                out.append(f"inplace_merge_mv {cid} {mid} {L(a + b)}")
+    for n in range(0, 6 + 1):
+        l = list(range(10, 10 + n))
+        for f in range(0, n + 1):
+            for m in range(f, n + 1):
+                for la in range(m, n + 1):
+                    out.append(f"rotate_mv {f} {m} {la} {L(l)}")
+                    out.append(f"rotate_fwd_mv {f} {m} {la} {L(l)}")
+            for la in range(f, n + 1):
+                out.append(f"reverse_ra_mv {f} {la} {L(l)}")
+                out.append(f"reverse_bidi_mv {f} {la} {L(l)}")
+                for d in range(0, n + 1):
+                    # [alg.move]: the destination is not in [first, last); move_backward: dLast is not in (first, last]
+                    if (d < f or la <= d or f == la) and d + (la - f) <= n:
+                        out.append(f"move_ov_mv {f} {la} {d} {L(l)}")
+                        if d < f or f == la:
+                            out.append(f"move_ov_mv_full {f} {la} {d} {L(l)}")
+                    if (la < d or d <= f or f == la) and d - (la - f) >= 0:
+                        out.append(f"move_backward_ov_mv {f} {la} {d} {L(l)}")
+                        if la < d or f == la:
+                            out.append(f"move_backward_ov_mv_full {f} {la} {d} {L(l)}")
+        for k in range(-1, n + 2):
+            for op in ("shift_left_mv", "shift_left_mv_full", "shift_right_mv", "shift_right_mv_full"):
+                out.append(f"{op} {k} {L(l)}")
+        for n2 in range(n, n + 2):
+            out.append(f"swap_ranges_mv {L(l)} {L(list(range(100, 100 + n2)))}")
+    for _ in range(150 if quick else 5000):
+        n = rng.randint(5, 12)
+        l = [rng.randint(0, 4) * 16 + rng.randint(0, 15) for _ in range(n)]
+        ls = L(l)
+        pid = rng.randint(0, 4)
+        cid = rng.randint(0, 3)
+        eid = rng.randint(0, 2)
+        t_ = rng.randint(1, 4)
+        s = rng.choice(SORTS)
+        for op in ("remove_if", "stable_partition", "partition_full", "copy_if", "partition_copy"):
+            out.append(f"{op}_t{t_} {pid} {ls}")
+        out.append(f"unique_full_t{t_} {eid if eid != 1 else 0} {ls}")
+        if cid != 3:
+            out.append(f"{s}_full_t{t_} {cid} {ls}")
+        out.append(f"{s}_mv_full {cid} {ls}")
+        out.append(f"unique_mv_full {eid} {ls}")
+        out.append(f"unique_mv {eid} {ls}")
+        out.append(f"remove_if_mv_full {pid} {ls}")
+        out.append(f"remove_if_mv {pid} {ls}")
+        out.append(f"stable_partition_mv {pid} {ls}")
+        f = rng.randint(0, n)
+        m = rng.randint(f, n)
+        la = rng.randint(m, n)
+        out.append(f"rotate_mv {f} {m} {la} {ls}")
+        mid = rng.randint(0, n)
+        a = sorted(l[:mid], key=cmpkey(cid))
+        b = sorted(l[mid:], key=cmpkey(cid))
+        out.append(f"inplace_merge_mv {cid} {mid} {L(a + b)}")
     return out
 
 
